@@ -271,6 +271,55 @@ example : scoreField (nVal toyMate [] (1 + 2) default 2 0) = .mate 1 :=
   mate_in_one_value_is_announced toyMate _ toyMate_inv [] 1 default 2 trivial (by decide) (by decide) Move.null
     (by decide) { (default : Game) with halfMoves := 1 } rfl ⟨by decide, by decide⟩ (by decide) (by decide)
 
+/-! ### what the announcements promise, spelled out -/
+/-- what `mate 1` promises, spelled out: some move that can be made leaves the opponent checkmated -/
+theorem mate_one_means (R : Rules) (g : Game) :
+    MatesIn R 1 g ↔ ∃ m ∈ R.generate g true, ∃ c, R.make g m = some c ∧ Mated R c := by
+  simp only [MatesIn, MatedIn]
+
+/-- what `mate −1` promises, spelled out (the property's "N = −1: every legal move allows mate next move"): the side to
+    move is checkmated already, or it has a move and every move it can make allows a mating reply -/
+theorem mated_one_means (R : Rules) (g : Game) :
+    MatedIn R 2 g ↔ Mated R g ∨
+      ((∃ m ∈ R.generate g true, ∃ c, R.make g m = some c) ∧
+       ∀ m ∈ R.generate g true, ∀ c, R.make g m = some c →
+         ∃ m' ∈ R.generate c true, ∃ c', R.make c m' = some c' ∧ Mated R c') := by
+  simp only [MatesIn, MatedIn]
+
+/-- `mate 0` is announced for a root value only when the side to move is checkmated already (the rule the check applies
+    to every info line: no `mate 0` where the position has a legal move) -/
+theorem mate_zero_means_mated (R : Rules) (P : Game → Prop) (hI : EvalInv R P) (H : List UInt64) (fuel : Nat)
+    (g : Game) (depth : Nat) (hP : P g) (hs : scoreField (nVal R H fuel g depth 0) = .mate 0) : Mated R g := by
+  obtain ⟨hb0, hbv⟩ := consts_ok
+  have hm := nVal_mate R P hI H fuel g depth 0 hP
+  generalize nVal R H fuel g depth 0 = v at hs hm
+  unfold scoreField at hs
+  by_cases c1 : (v ≥ -Gen.MATE_VALUE ∧ v < -Gen.MATE_BOUND)
+  · have c1' : (decide (v ≥ -Gen.MATE_VALUE) && decide (v < -Gen.MATE_BOUND)) = true := by simp [c1]
+    rw [if_pos c1'] at hs
+    simp only [ScoreField.mate.injEq] at hs
+    obtain ⟨n, hn, hd⟩ := hm.2 c1.2
+    have hN : (n : Int) / 2 = 0 := by
+      rw [hn] at hs
+      have : -(-Gen.MATE_VALUE + ((0 + n : Nat) : Int) + Gen.MATE_VALUE) = -(n : Int) := by push_cast; omega
+      rw [this, Int.neg_tdiv, Int.tdiv_eq_ediv_of_nonneg (Int.natCast_nonneg _)] at hs
+      omega
+    have h2 : n / 2 = 0 := by omega
+    have := hd.even R
+    rw [h2] at this
+    simpa only [MatedIn] using this
+  · have c1' : ¬ ((decide (v ≥ -Gen.MATE_VALUE) && decide (v < -Gen.MATE_BOUND)) = true) := by simpa using c1
+    rw [if_neg c1'] at hs
+    by_cases c2 : (v ≤ Gen.MATE_VALUE ∧ v > Gen.MATE_BOUND)
+    · have c2' : (decide (v ≤ Gen.MATE_VALUE) && decide (v > Gen.MATE_BOUND)) = true := by simp [c2]
+      rw [if_pos c2'] at hs
+      simp only [ScoreField.mate.injEq] at hs
+      rw [Int.tdiv_eq_ediv_of_nonneg (by omega)] at hs
+      omega
+    · have c2' : ¬ ((decide (v ≤ Gen.MATE_VALUE) && decide (v > Gen.MATE_BOUND)) = true) := by simpa using c2
+      rw [if_neg c2'] at hs
+      cases hs
+
 /-! Non-vacuity and the concrete cases the property names. -/
 example : inMateRange 1 ∧ (1 : Int) % 2 = 1 := by unfold inMateRange; decide
 example : scoreField (Gen.MATE_VALUE - 1) = .mate 1 := by decide          -- mate in one
